@@ -24,6 +24,8 @@ def ts(k):
         return None
     if k == "tz":      # an aware timestamp that is not in UTC
         return datetime.datetime(2000, 1, 1, 12, 0, 7, tzinfo=OTHER_TZ)
+    if k == "future":  # a supplied timestamp far ahead of the real clock
+        return datetime.datetime(2100, 1, 1, 0, 0, 0, tzinfo=UTC)
     return datetime.datetime(2000, 1, 1, 0, 0, k, tzinfo=UTC)
 
 
